@@ -197,6 +197,7 @@ type Case struct {
 	Cached bool     `json:"cached,omitempty"`
 	N      uint64   `json:"n,omitempty"` // Hash(n)
 	Ops    []Op     `json:"ops,omitempty"`
+	Follow string   `json:"follow,omitempty"` // "" | "same" | "good": repeat the call on the same client, the node answering the same corrupted / an honest answer; the SECOND call is judged
 }
 
 type outcome struct {
@@ -209,18 +210,58 @@ type outcome struct {
 	ex       []*simeth.Exchange
 	applied  []bool // per op: reached and applicable
 	flags    flags
+	prev     *outcome // the first call, when this is the outcome of a follow-up call on the same client
 }
 
-// execute drives the real client once against the simulated node, with the case's corruptions.
+// exSig identifies an exchange within one call by what it asks for: kind and occurrence.
+func exSig(ex *simeth.Exchange, seen map[string]int) string {
+	k := exKind(ex)
+	n := seen[k]
+	seen[k]++
+	return fmt.Sprintf("%s#%d", k, n)
+}
+
+// execute drives the real client against the simulated node: one call with the case's
+// corruptions and, for a follow-up case, a second identical call on the SAME client with
+// the node answering the same corrupted answers again ("same") or honestly ("good").
+// The outcome of the last call is returned (prev = the first).
 func execute(cs *Case) *outcome {
 	world()
-	out := &outcome{applied: make([]bool, len(cs.Ops))}
+	url := urlFor(cs.Cached)
+	client := jrpc2.New(url).WithPollDuration(time.Hour)
+	defer func() { nt.Gate = nil }()
+
+	first := runCall(cs, client, url, cs.Ops, nil, false)
+	if cs.Follow == "" {
+		return first
+	}
+	// which request each corrupted exchange of the first call answered
+	sigs, seen := map[int]string{}, map[string]int{}
+	for _, ex := range first.ex {
+		sigs[ex.Seq] = exSig(ex, seen)
+	}
+	var ops []Op
+	if cs.Follow == "same" {
+		ops = cs.Ops
+	}
+	second := runCall(cs, client, url, ops, sigs, true)
+	second.prev = first
+	return second
+}
+
+// runCall performs one call. Operator op is applied to the exchange with Seq == op.K, or,
+// in a follow-up call (sigs != nil), to the exchange asking what exchange op.K of the
+// first call asked (a cache may have removed earlier exchanges).
+func runCall(cs *Case, client *jrpc2.Client, url string, ops []Op, sigs map[int]string, follow bool) *outcome {
+	out := &outcome{applied: make([]bool, len(ops))}
 	nt.Reset()
 	oc := opCtx{start: cs.Start, limit: cs.Limit}
+	seen := map[string]int{}
 	nt.Gate = func(ex *simeth.Exchange) {
+		sig := exSig(ex, seen)
 		var mine []int
-		for i := range cs.Ops {
-			if cs.Ops[i].K == ex.Seq {
+		for i := range ops {
+			if sigs == nil && ops[i].K == ex.Seq || sigs != nil && sigs[ops[i].K] == sig {
 				mine = append(mine, i)
 			}
 		}
@@ -232,7 +273,7 @@ func execute(cs *Case) *outcome {
 			return
 		}
 		for _, i := range mine {
-			if op := cs.Ops[i]; !isFault(op.Name) {
+			if op := ops[i]; !isFault(op.Name) {
 				tree, out.applied[i] = applyTree(op, tree, oc)
 			}
 		}
@@ -240,7 +281,7 @@ func execute(cs *Case) *outcome {
 		ex.Mutate = func(any) any { return final }
 		body := marshal(final)
 		for _, i := range mine {
-			op := cs.Ops[i]
+			op := ops[i]
 			if !isFault(op.Name) {
 				continue
 			}
@@ -259,10 +300,6 @@ func execute(cs *Case) *outcome {
 			}
 		}
 	}
-	defer func() { nt.Gate = nil }()
-
-	url := urlFor(cs.Cached)
-	client := jrpc2.New(url).WithPollDuration(time.Hour)
 	func() {
 		defer func() {
 			if r := recover(); r != nil {
@@ -276,7 +313,11 @@ func execute(cs *Case) *outcome {
 			out.flags = flagsOf(f)
 			out.blocks, out.err = client.Get(ctx, url, f, cs.Start, cs.Limit)
 		case "latest":
-			out.num, out.hash, out.err = client.Latest(ctx, url, 0)
+			n := uint64(0)
+			if follow {
+				n = 1 // may be answered from the client's latest-block cache
+			}
+			out.num, out.hash, out.err = client.Latest(ctx, url, n)
 		case "hash":
 			out.hash, out.err = client.Hash(ctx, url, cs.N)
 		}
